@@ -2,6 +2,7 @@
 """Entry point of every quick_cmd / thorough_cmd:  tools/check.py Cxx [--tier quick|thorough] [--replay file]"""
 import sys, os, argparse, importlib, json, time, traceback
 sys.path.insert(0, os.path.dirname(os.path.abspath(__file__)))
+sys.path.insert(0, os.path.join(os.path.dirname(os.path.abspath(__file__)), "props"))
 import vlib
 
 
